@@ -71,8 +71,14 @@ def verify(name, suite=True):
         res["demo_with"] = b.returncode
         res["demo_with_tail"] = (b.stdout + b.stderr)[-300:]
         if suite:
-            t = sh(f"cd {wt} && PYTHONPATH={wt}/src timeout 1500 /venv/bin/python -m pytest -q -p no:cacheprovider --timeout=900 src/experimaestro/tests -k 'not restart and not token_fail' 2>&1 | tail -3")
+            t = sh(f"cd {wt} && PYTHONPATH={wt}/src timeout 1500 /venv/bin/python -m pytest -q -rf -p no:cacheprovider --timeout=900 src/experimaestro/tests -k 'not restart and not token_fail' 2>&1 | tail -12")
             res["suite_tail"] = t.stdout.strip().splitlines()[-1:]
+            failed = [l.split()[1] for l in t.stdout.splitlines() if l.startswith("FAILED ")]
+            if failed:
+                # tests with 2-3 s time limits fail under machine load: each failed test is run again on its own
+                res["failed_in_full_run"] = failed
+                again = sh(f"cd {wt} && PYTHONPATH={wt}/src timeout 900 /venv/bin/python -m pytest -q -p no:cacheprovider --timeout=900 {' '.join(failed)} 2>&1 | tail -1")
+                res["failed_tests_run_alone"] = again.stdout.strip().splitlines()[-1:]
     finally:
         sh(["git", "-C", "/repo", "worktree", "remove", "--force", str(wt)])
         shutil.rmtree(f"/dev/shm/seedv-{name}-local", ignore_errors=True)
